@@ -52,6 +52,18 @@ CHECKS = {
     ),
 }
 
+GRAPH_ASSUME = ["node bodies are deterministic functions of their input (harness lambdas)",
+                "values are strings and map[string]any with string leaves; typed fan-in of other types is not generated"]
+
+CHECKS["C01"] = dict(
+    technique="property-based testing (rapid): generated Pregel graphs and chains vs an independent superstep reference interpreter (model-based oracle)",
+    level_text="Generated-input search over graph shapes (fan-out, fan-in by key, single/multi branches incl. empty selection, back edges, pass-through, nested graphs of pregel/dag/chain kind, step limits at compile and call time, chains with parallel/branch stages) and inputs; each run is compared with a reference interpreter written from the statement: same output or same failure class (max steps / nothing to run / merge failure / missing input key), same multiset and per-node sequence of node executions. Non-termination is converted into a counted failure by a per-node execution cap. Held on everything explored.",
+    level_note="Trusts the harness builder (spec -> public Add*/Append* API) and the reference model gkit.Ref; node timing is irrelevant here (bodies are instantaneous, C03 owns schedules).",
+    rule="rapid draws a GraphSpec by construction (typed nodes S/M, every node has a primary predecessor, extra fan-in/back edges/branches/joins) plus an input and a calling form; non-trivial = the model predicts >= 3 lambda executions and at least one of: two values merged in one step, a node executed >= 2 times (cycle), a branch deciding differently at two evaluations, a graph node executed, a chain with a parallel or branch stage; distinct = FNV-1a of the case JSON",
+    assumptions=GRAPH_ASSUME,
+    parts=[rapid_part("rapid", "compose", "TestC01", 6000, 60000, replay_test="TestC01Replay")],
+)
+
 # properties not claimed (with reason); everything else not in CHECKS is "not built yet"
 NOT_APPLICABLE = {}
 
